@@ -1,3 +1,21 @@
+/-
+  Lemmas/FloatIntExact.lean — IEEE double arithmetic is EXACT on integers below 2^53 (namespace `Rosu.FIE`): theorems about the
+  driver's `Float` (the `Scalar Float` instance of Model/FloatInst.lean; Lean 4.33's logical float model), no hypotheses
+  beyond the size bounds.
+
+  * `up_ofInt`, `up_ofInt_zero`: the unpacked form of `Float.ofInt z`, `|z| < 2^53` (canonical `(|z|·2^(52−log2|z|), log2|z|−52)`,
+    sign of `z`; `Float.ofInt 0` is `+0.0`).
+  * `uadd_int` (any format; the `+` twin of `FTR.usub_int`), **`add_int_exact_float`**, **`sub_int_exact_float`**:
+    `Float.ofInt a ± Float.ofInt b = Float.ofInt (a ± b)` for `|a|, |b|, |a ± b| < 2^53` (equality of doubles, i.e. of bit
+    patterns; a zero result is `+0.0 = Float.ofInt 0`, never `−0.0`).
+  * `bits_ofInt`, `intPat_lt` (the pattern of a positive integer is strictly increasing in the integer), `fval_ofInt`,
+    `totalKey_ofInt`.
+  * **comparisons**: `lt_ofInt`, `le_ofInt`, `eq_ofInt` (`Scalar.lt/le/eq (Float.ofInt a) (Float.ofInt b) = decide (a </≤/= b)`),
+    `totalKey_lt_ofInt` / `_le_` / `_eq_` (the `total_cmp` key is strictly monotone in the integer — there is no sign-of-zero
+    caveat on this domain because `−0.0` is not a `Float.ofInt` value; `Float.ofInt 0` has key `0`, `Float.ofInt (-1)` a negative
+    key), `ofInt_inj`, **`isNaN_ofInt`** (`Float.ofInt z` is never NaN).
+  The bound is sharp (`2^53 + 1` is not representable: last `example`).
+-/
 import RosuModel.Lemmas.FloatTrunc
 import RosuModel.Lemmas.FloatModelOfInt
 import RosuModel.Lemmas.FloatModelOrder
